@@ -1,6 +1,9 @@
 (* C18 — A local job runs once and ends in exactly one truthful final state.
    Model: Model/LocalJob.v (two-thread transition system; every list of events is an interleaving that respects
    the worker's program order).  [final c p l] is the state after the schedule [l] from a fresh job.
+   The model carries the code version in [ver c]: [code_now] is /repo as it is (after fix commits 5d55599b and
+   53f68db6), [code_3e543e6e] the code before them.  Theorems named ..._old_code are HISTORICAL: they describe the
+   behaviour before the repairs and are kept as witnesses of the two repaired defects.
    Only statements + [exact] + Print Assumptions live here. *)
 From PV Require Import Model.LocalJob Proofs.LocalJobP.
 Local Open Scope Z_scope.
@@ -21,34 +24,40 @@ Theorem C18_not_started_before_execute : forall c p l, let s := final c p l in s
 Proof. exact not_started_before_execute. Qed.
 Print Assumptions C18_not_started_before_execute.
 
-(* ---- running until the task returned.
-   Full statement (FALSE of the current code, see _refuted):
-     forall c p l, let s := final c p l in mid_run (pc s) = true ->
-       do_status s = (s, SOk Running (progress s) (phase s) (msg s)).
-   The internal status field is right in every schedule; the query is right for asynchronous runs and raises
-   AttributeError for every query made during a synchronous run. *)
+(* ---- running until the task returned: the status field, and (current code) every status query, synchronous
+   and asynchronous runs alike *)
 Theorem C18_status_field_running_until_finish : forall c p l, let s := final c p l in
   mid_run (pc s) = true -> status s = Running.
 Proof. exact status_running_until_finish. Qed.
 Print Assumptions C18_status_field_running_until_finish.
 
-Theorem C18_status_query_running_partial : forall c p l, let s := final c p l in
-  mid_run (pc s) = true -> sync s = false -> do_status s = (s, SOk Running (progress s) (phase s) (msg s)).
+Theorem C18_status_query_running : forall c p l, status_needs_worker (ver c) = false -> let s := final c p l in
+  mid_run (pc s) = true -> do_status c s = (s, SOk Running (progress s) (phase s) (msg s)).
+Proof. exact status_query_running. Qed.
+Print Assumptions C18_status_query_running.
+Example C18_status_query_running_sat :
+  status_needs_worker (ver cfg_w) = false /\
+  mid_run (pc (final cfg_w prog_w [Act (AExec Sync [3] []); Wk; Wk])) = true /\
+  mid_run (pc (final cfg_w prog_w [Act (AExec Async [3] []); Wk; Wk])) = true.
+Proof. vm_compute. repeat split; reflexivity. Qed.
+
+(* HISTORICAL (before 5d55599b): the old code was right for asynchronous runs only ... *)
+Theorem C18_status_query_running_async_any_code : forall c p l, let s := final c p l in
+  mid_run (pc s) = true -> sync s = false -> do_status c s = (s, SOk Running (progress s) (phase s) (msg s)).
 Proof. exact status_query_running_async. Qed.
-Print Assumptions C18_status_query_running_partial.
-Example C18_status_query_running_partial_sat :
-  let s := final cfg_w prog_w [Act (AExec Async [3] []); Wk; Wk] in mid_run (pc s) = true /\ sync s = false.
-Proof. vm_compute. split; reflexivity. Qed.
+Print Assumptions C18_status_query_running_async_any_code.
 
-Theorem C18_status_query_running_refuted : exists c p l, let s := final c p l in
-  mid_run (pc s) = true /\ snd (do_status s) = SAttrErr.
-Proof. exact status_query_running_refuted. Qed.
-Print Assumptions C18_status_query_running_refuted.
+(* ... HISTORICAL: with the old code the statement C18_status_query_running was false (witness), *)
+Theorem C18_status_query_running_refuted_old_code : exists p l, let s := final cfg_old p l in
+  mid_run (pc s) = true /\ snd (do_status cfg_old s) = SAttrErr.
+Proof. exact status_query_running_refuted_old_code. Qed.
+Print Assumptions C18_status_query_running_refuted_old_code.
 
-Theorem C18_status_query_fails_throughout_sync_run : forall c p l, let s := final c p l in
-  mid_run (pc s) = true -> sync s = true -> do_status s = (s, SAttrErr).
-Proof. exact status_query_during_sync_run. Qed.
-Print Assumptions C18_status_query_fails_throughout_sync_run.
+(* ... HISTORICAL: indeed every query during a synchronous run raised AttributeError *)
+Theorem C18_status_query_fails_throughout_sync_run_old_code : forall c p l, status_needs_worker (ver c) = true ->
+  let s := final c p l in mid_run (pc s) = true -> sync s = true -> do_status c s = (s, SAttrErr).
+Proof. exact status_query_during_sync_run_old_code. Qed.
+Print Assumptions C18_status_query_fails_throughout_sync_run_old_code.
 
 (* ---- the final state is truthful.  [pc = PRet]: the task has returned; [pc = PExc ty m]: it has raised the
    Exception (ty, m); the next worker step is the wrapper's finish; l1 and l2 are arbitrary. *)
@@ -91,48 +100,74 @@ Print Assumptions C18_never_success_when_task_raised_refuted.
 
 (* ---- results *)
 Theorem C18_no_results_while_running : forall c p l, let s := final c p l in
-  (pc s = PIdle \/ mid_run (pc s) = true) -> forall v, snd (do_get s) <> GValue v.
+  (pc s = PIdle \/ mid_run (pc s) = true) -> forall v, snd (do_get c s) <> GValue v.
 Proof. exact no_results_while_running. Qed.
 Print Assumptions C18_no_results_while_running.
 
-Theorem C18_results_idempotent : forall c p l v, let s := final c p l in snd (do_get s) = GValue v ->
-  forall l2, snd (do_get (fst (run c p (fst (do_get s)) l2))) = GValue v.
+Theorem C18_results_idempotent : forall c p l v, let s := final c p l in snd (do_get c s) = GValue v ->
+  forall l2, snd (do_get c (fst (run c p (fst (do_get c s)) l2))) = GValue v.
 Proof. exact results_idempotent. Qed.
 Print Assumptions C18_results_idempotent.
 Example C18_results_idempotent_sat : exists v,
-  snd (do_get (final cfg_w prog_w [Act (AExec Async [3] []); Wk; Wk; Wk; Wk])) = GValue (Some v) /\ nconv v = 1%nat.
+  snd (do_get cfg_w (final cfg_w prog_w [Act (AExec Async [3] []); Wk; Wk; Wk; Wk])) = GValue (Some v) /\ nconv v = 1%nat.
 Proof. eexists. vm_compute. split; reflexivity. Qed.
 
-Theorem C18_results_converted_once : forall c p l r, snd (do_get (final c p l)) = GValue (Some r) ->
+Theorem C18_results_converted_once : forall c p l r, snd (do_get c (final c p l)) = GValue (Some r) ->
   nconv r = if has_map c then 1%nat else 0%nat.
 Proof. exact results_converted_once. Qed.
 Print Assumptions C18_results_converted_once.
 
-(* ---- the user's progress callback.
-   Full statement (FALSE of the current code): a callback supplied in any documented way, including the
-   progress_callback keyword of execute, is invoked and changes nothing else.  True for callbacks given at
-   construction / set_progress_callback (below); the keyword makes execute fail (_refuted). *)
-Theorem C18_user_callback_transparent_partial : forall c p l, Forall no_cb_kw l ->
+(* ---- the user's progress callback (current code): supplied in any way — at construction, with
+   set_progress_callback, with the progress_callback keyword of execute — it changes nothing but the callback
+   itself and what it received: the run equals the run with every callback erased. *)
+Theorem C18_user_callback_transparent : forall c p l, cb_keyword_kept (ver c) = false ->
   core (final (nocb c) p (map strip l)) = core (final c p l).
 Proof. exact user_callback_transparent. Qed.
-Print Assumptions C18_user_callback_transparent_partial.
-Example C18_user_callback_transparent_sat : Forall no_cb_kw [Act (ASetCb (Some 7)); Act (AExec Sync [3] []); Wk; Wk].
-Proof. repeat constructor. Qed.
+Print Assumptions C18_user_callback_transparent.
 
-Theorem C18_callback_receives_progress : forall p s cb pr ph rest, pc s = PTask ((pr, ph) :: rest) false ->
+Theorem C18_callback_keyword_installs : forall c s m a k cb, cb_keyword_kept (ver c) = false ->
+  status s = Waiting -> lookup N_PROGRESS_CB k = Some cb ->
+  do_exec c s m a k = do_exec c (set_ucb s (Some cb)) m a (remove_key N_PROGRESS_CB k).
+Proof. exact callback_keyword_installs. Qed.
+Print Assumptions C18_callback_keyword_installs.
+
+Theorem C18_callback_keyword_accepted : forall c s m a k cb, cb_keyword_kept (ver c) = false ->
+  status s = Waiting -> lookup N_PROGRESS_CB k = Some cb ->
+  snd (do_exec c s m a (remove_key N_PROGRESS_CB k)) = XAccepted ->
+  snd (do_exec c s m a k) = XAccepted /\ user_cb (fst (do_exec c s m a k)) = Some cb.
+Proof. exact callback_keyword_accepted. Qed.
+Print Assumptions C18_callback_keyword_accepted.
+Example C18_callback_keyword_accepted_sat :
+  snd (do_exec cfg_w (init cfg_w) Sync [3] (remove_key N_PROGRESS_CB [(N_PROGRESS_CB, 7)])) = XAccepted.
+Proof. vm_compute. reflexivity. Qed.
+
+Theorem C18_callback_receives_progress : forall c p s cb pr ph rest, pc s = PTask ((pr, ph) :: rest) false ->
   user_cb s = Some cb -> cancel s = false ->
-  let s' := fst (wk p s) in cb_log s' = cb_log s ++ [(cb, pr, ph)] /\ progress s' = pr /\ phase s' = ph.
+  let s' := fst (wk c p s) in cb_log s' = cb_log s ++ [(cb, pr, ph)] /\ progress s' = pr /\ phase s' = ph.
 Proof. exact callback_receives_progress. Qed.
 Print Assumptions C18_callback_receives_progress.
 
-Theorem C18_callback_keyword_refuted : exists c p l,
-  trace c p l = [OExec (XRejected (PUnused [N_PROGRESS_CB]))] /\ calls (final c p l) = [].
-Proof. exact callback_keyword_refuted. Qed.
-Print Assumptions C18_callback_keyword_refuted.
+Theorem C18_callback_keyword_receives_progress :
+  trace cfg_w prog_w [Act (AExec Sync [3] [(N_PROGRESS_CB, 7)]); Wk; Wk] = [OExec XAccepted; OStarted; OProgress (ucb_resp 7) true] /\
+  cb_log (final cfg_w prog_w [Act (AExec Sync [3] [(N_PROGRESS_CB, 7)]); Wk; Wk]) = [(7, 500, 1)].
+Proof. exact callback_keyword_receives_progress. Qed.
+Print Assumptions C18_callback_keyword_receives_progress.
+
+(* HISTORICAL (before 53f68db6): transparency held only for schedules without the keyword ... *)
+Theorem C18_user_callback_transparent_without_keyword_any_code : forall c p l, Forall no_cb_kw l ->
+  core (final (nocb c) p (map strip l)) = core (final c p l).
+Proof. exact user_callback_transparent_without_keyword. Qed.
+Print Assumptions C18_user_callback_transparent_without_keyword_any_code.
+
+(* ... HISTORICAL witness: the keyword made execute fail and the task never started *)
+Theorem C18_callback_keyword_refuted_old_code : exists p l,
+  trace cfg_old p l = [OExec (XRejected (PUnused [N_PROGRESS_CB]))] /\ calls (final cfg_old p l) = [].
+Proof. exact callback_keyword_refuted_old_code. Qed.
+Print Assumptions C18_callback_keyword_refuted_old_code.
 
 (* ---- arguments: an unknown keyword is rejected and the task is not started *)
 Theorem C18_unknown_args_rejected_before_start : forall c s m a k kn v,
-  status s = Waiting -> In (kn, v) k -> ~ In (kn, None) (cmd s) -> ~ In (kn, None) (mapp s) ->
+  status s = Waiting -> In (kn, v) k -> kn <> N_PROGRESS_CB -> ~ In (kn, None) (cmd s) -> ~ In (kn, None) (mapp s) ->
   (exists e, snd (do_exec c s m a k) = XRejected e) /\
   let s' := fst (do_exec c s m a k) in status s' = Waiting /\ pc s' = pc s /\ calls s' = calls s.
 Proof. exact unknown_args_rejected_before_start. Qed.
